@@ -1,6 +1,6 @@
 (* Theorems about context teardown (C01). *)
 From Coq Require Import List Bool Arith Lia Permutation.
-From Asphalt Require Import Td.TdModel Gen.Gen_coalesce.
+From Asphalt Require Import Td.TdModel Gen.Gen_coalesce Gen.Gen_lifecycle.
 Import ListNotations.
 
 (* ---------- the specification: strict LIFO including callbacks added during teardown ---------- *)
@@ -44,7 +44,8 @@ Theorem teardown_spec : forall fuel cancelled stack orig,
 Proof.
   induction fuel as [|f IH]; intros cancelled stack orig Hsz.
   - destruct stack as [|c r]; [reflexivity|]. simpl in Hsz. pose proof (size_eq c). lia.
-  - simpl. destruct (rev stack) as [|c rr] eqn:E.
+  - cbn [teardown]. unfold pop, register, passed, td_pops_last, td_registers_at_end, td_arg_is_exit_exception.
+    destruct (rev stack) as [|c rr] eqn:E.
     + assert (stack = []) as ->.
       { destruct stack; [auto|]. apply (f_equal (@length _)) in E. rewrite rev_length in E. simpl in E. lia. }
       reflexivity.
@@ -147,7 +148,7 @@ Proof. induction l; simpl; auto. now rewrite IHl. Qed.
 Theorem outcome_is_the_blocks : forall is_root,
   aexit is_root Return [] = ONormal /\
   forall i, aexit is_root (Raise (Leaf i true)) [] = ORaise (Leaf i true) None.
-Proof. intro is_root. split; [reflexivity|]. intro i. destruct is_root; reflexivity. Qed.
+Proof. intro is_root. split; [destruct is_root; reflexivity|]. intro i. destruct is_root; reflexivity. Qed.
 
 (* a child context lets every exception of the block out as itself *)
 Theorem child_outcome_unwrapped : forall e, aexit false (Raise e) [] = ORaise e None.
@@ -173,5 +174,7 @@ Theorem outcome_groups_callback_exceptions : forall block td,
 Proof.
   intros block td Hb Ht. unfold aexit. rewrite plain_CE.
   destruct td as [|x r]; [congruence|].
-  destruct block; try congruence; split; try reflexivity; now rewrite coalesce_nested.
+  destruct block; try congruence; split; try reflexivity;
+    cbn [negb exit_entries app rev unwind fold_left run_entry]; unfold td_cause_is_exit_exception;
+    now rewrite coalesce_nested.
 Qed.
